@@ -53,15 +53,15 @@ Theorem C16_sqrt_seg_first : forall L, 0 <= L < 64 ->
 Proof. exact SegSqrt_Proofs.seg_first. Qed.
 Print Assumptions C16_sqrt_seg_first.
 
-(* surjectivity: every slot (s, j), j < GetItemCount(s), whose exact (unbounded) index SegMath.idx_of fits below
-   2^64 - 2^L is computed without wrap by GetIndex and is mapped back to (s, j): with the round trip above the
-   index <-> (segment, offset) mapping is a bijection *)
-Theorem C16_sqrt_seg_roundtrip_rev : forall L s j, 0 <= L < 64 -> 0 <= s -> 0 <= j ->
-  2 * s + 4 < 2 ^ 64 -> SegMath.slog s + L < 64 ->
-  j < Gen_SegSqrt.GetItemCount L s -> SegMath.idx_of L s j < 2 ^ 64 - 2 ^ L ->
-  Gen_SegSqrt.GetIndex L s j = SegMath.idx_of L s j /\
+(* surjectivity: every slot (s, j), j < 2^(slog s + L) (= the exact segment size SegMath.cnt_of), whose exact (unbounded) index SegMath.idx_of fits
+   below 2^64 - 2^L: GetItemCount does not wrap, GetIndex computes the exact index without wrap, and it is mapped back to (s, j): with the round
+   trip above the index <-> (segment, offset) mapping is a bijection.  (final round: the former premises 2s+4 < 2^64 and slog s + L < 64 are
+   discharged from the fit of the index) *)
+Theorem C16_sqrt_seg_roundtrip_rev : forall L s j, 0 <= L < 64 -> 0 <= s -> 0 <= j < SegMath.cnt_of L s ->
+  SegMath.idx_of L s j < 2 ^ 64 - 2 ^ L ->
+  Gen_SegSqrt.GetItemCount L s = SegMath.cnt_of L s /\ Gen_SegSqrt.GetIndex L s j = SegMath.idx_of L s j /\
   Gen_SegSqrt.GetSegItemIndexes L (Gen_SegSqrt.GetIndex L s j) = (s, j).
-Proof. exact SegSqrt_Proofs.seg_roundtrip_rev. Qed.
+Proof. exact SegSqrt_Proofs.seg_roundtrip_rev_strong. Qed.
 Print Assumptions C16_sqrt_seg_roundtrip_rev.
 
 (* GetCapacity() = GetIndex(segCount, 0) is the prefix sum of the segment sizes: one more segment adds exactly
@@ -324,7 +324,6 @@ Print Assumptions C16_sqrt_arr_Reserve.
 
 Theorem C16_sqrt_arr_Shrink : forall L, 0 <= L <= 62 -> forall segs n c cap,
   Arr_Proofs.ginv (Gen_SegSqrt.GetSegItemIndexes L) SegModel_Inst.maxi (SegModel_Inst.SCq L) n c -> 0 <= cap < SegModel_Inst.maxi ->
-  Gen_SegSqrt.GetIndex L n 0 < SegModel_Inst.maxi ->
   exists n', Gen_ArrSqrt.ShrinkTo (Gen_SegSqrt.GetSegItemIndexes L) (Gen_SegSqrt.GetIndex L) segs n c cap = Ok (tt, n') /\ n' <= n /\
     (exists st', SegModel.step (Gen_SegSqrt.GetSegItemIndexes L) (Gen_SegSqrt.GetIndex L) (Arr_Proofs.mst n c) (SegModel.ShrinkTo cap) = Some st' /\
                  n' = SegModel.len st') /\
@@ -357,7 +356,6 @@ Print Assumptions C16_cnst_arr_Reserve.
 
 Theorem C16_cnst_arr_Shrink : forall L, 0 <= L <= 62 -> forall segs n c cap,
   Arr_Proofs.ginv (Gen_SegCnst.GetSegItemIndexes L) SegModel_Inst.maxi (SegModel_Inst.SCc L) n c -> 0 <= cap < SegModel_Inst.maxi ->
-  Gen_SegCnst.GetIndex L n 0 < SegModel_Inst.maxi ->
   exists n', Gen_ArrCnst.ShrinkTo (Gen_SegCnst.GetSegItemIndexes L) (Gen_SegCnst.GetIndex L) segs n c cap = Ok (tt, n') /\ n' <= n /\
     (exists st', SegModel.step (Gen_SegCnst.GetSegItemIndexes L) (Gen_SegCnst.GetIndex L) (Arr_Proofs.mst n c) (SegModel.ShrinkTo cap) = Some st' /\
                  n' = SegModel.len st') /\
@@ -465,7 +463,7 @@ Print Assumptions C16_cnst_arr_getitem_stable.
 
 (* sqrt: Shrink() = Shrink(mCount): never stuck, only truncation, the model's segment count, invariant kept *)
 Theorem C16_sqrt_arr_ShrinkFit : forall L, 0 <= L <= 62 -> forall segs n c,
-  Arr_Proofs.ginv (Gen_SegSqrt.GetSegItemIndexes L) SegModel_Inst.maxi (SegModel_Inst.SCq L) n c -> Gen_SegSqrt.GetIndex L n 0 < SegModel_Inst.maxi ->
+  Arr_Proofs.ginv (Gen_SegSqrt.GetSegItemIndexes L) SegModel_Inst.maxi (SegModel_Inst.SCq L) n c ->
   exists n', Gen_ArrSqrt.ShrinkFit (Gen_SegSqrt.GetSegItemIndexes L) (Gen_SegSqrt.GetIndex L) segs n c = Ok (tt, n') /\ n' <= n /\
     (exists st', SegModel.step (Gen_SegSqrt.GetSegItemIndexes L) (Gen_SegSqrt.GetIndex L) (Arr_Proofs.mst n c) SegModel.ShrinkFit = Some st' /\ n' = SegModel.len st') /\
     Arr_Proofs.ginv (Gen_SegSqrt.GetSegItemIndexes L) SegModel_Inst.maxi (SegModel_Inst.SCq L) n' c.
